@@ -90,7 +90,9 @@ class Model:
 
     # ---- helpers
     def _regroup(self):
-        self.top = regroup(flatten(self.top), self.cfg["group_by"])
+        # the ACL regroups itself only while a group_by prefix is active; without one, blocks (hand-made groups) stay as they are
+        if self.cfg["group_by"]:
+            self.top = regroup(flatten(self.top), self.cfg["group_by"])
 
     def _map_items(self, func):
         new_top = []
@@ -178,6 +180,8 @@ class Model:
                 new["m"] = (act, proto, src, sport, dst, dport, flags)
                 return [new]
             self._map_items(strip)
+            if not self.cfg["group_by"]:
+                self.top = flatten(self.top)  # a re-parse of the text knows nothing about hand-made blocks
         self._regroup()
         return "exact"
 
